@@ -1401,13 +1401,16 @@ func (r *runningStep) runStage(forceCloseTimeoutMS int64) error {
 		return result.Error
 	}
 
-	// Execution complete, move to state running stage outputs, then to state finished stage.
-	r.transitionRunningStage(StageIDOutput)
-	r.completeStep(r.currentStage, step.RunningStepStateFinished, &result.OutputID, &result.OutputData)
-	// The step has produced its output: it cannot crash, fail to deploy or be closed anymore.
+	// The plugin has delivered its result: the step cannot crash, fail to deploy or be closed anymore.
+	// This is said before the completion is reported, because the completion is what makes the workflow
+	// look for a deadlock, and whatever still waits for one of these stages would count as stuck.
 	err := fmt.Errorf("step %s/%s finished with output %s", r.runID, r.pluginStepID, result.OutputID)
 	r.markNotClosable(err)
 	r.markErrorStagesImpossible(err, StageIDCrashed, StageIDDeployFailed)
+
+	// Execution complete, move to state running stage outputs, then to state finished stage.
+	r.transitionRunningStage(StageIDOutput)
+	r.completeStep(r.currentStage, step.RunningStepStateFinished, &result.OutputID, &result.OutputData)
 
 	return nil
 }
